@@ -1,16 +1,1506 @@
-//! C14 (component level) — not built yet.
+//! C14 (component level): a peer's transport parameters are accepted exactly when RFC 9000
+//! §7.4 / §18.2 (+ RFC 9221 §3) allow them, the decoded values are the declared ones (RFC defaults
+//! for absent parameters), and the conversions that turn them into limits keep their RFC meaning.
+//!
+//! Inputs are produced by this module's own varint/TLV encoder (never by s2n's encoder) and judged
+//! by a table transcribed from the RFCs (`TABLE`, `judge`); the code under test is
+//! `ClientTransportParameters::decode` / `ServerTransportParameters::decode` (a *server* decodes
+//! `ClientTransportParameters`, a client `ServerTransportParameters`, as in
+//! `s2n-quic-transport/src/space/session_context.rs`) and the `flow_control_limits`,
+//! `stream_limits().max_data`, `ack_settings`, `datagram_limits`, `Limits::load_peer` conversions.
+//!
+//! Out of reach at this level (end-to-end part of C14): connection-ID *authentication* against the
+//! handshake (`validate_initial_source_connection_id` & co. live in `SessionContext`), the error
+//! code on the wire, and the behaviour of a running connection under the limits.
 
-use vcore::{Property, SubCheck};
+use core::time::Duration;
+use proptest::prelude::*;
+use s2n_codec::{DecoderBuffer, EncoderValue};
+use s2n_quic_core::{
+    connection::limits::Limits,
+    endpoint,
+    stream::StreamId,
+    transport::parameters::{
+        ClientTransportParameters, MigrationSupport, MtuProbingCompleteSupport,
+        ServerTransportParameters, TransportParameters,
+    },
+    varint::VarInt,
+};
+use serde::{Deserialize, Serialize};
+use std::collections::BTreeMap;
+use std::sync::OnceLock;
+use vcore::{gen::*, CaseResult, EnumCheck, Fail, Obs, PropCheck, Property, SubCheck, Tier};
+
+const VMAX: u64 = (1 << 62) - 1;
+const KEY: u64 = 0x1414_7a9a;
+
+// =======================================================================================
+// own varint / TLV encoder + reference parser (RFC 9000 §16, §18 figures 20/21)
+
+fn min_width(v: u64) -> usize {
+    if v < 1 << 6 {
+        1
+    } else if v < 1 << 14 {
+        2
+    } else if v < 1 << 30 {
+        4
+    } else {
+        8
+    }
+}
+
+/// RFC 9000 §16: "The QUIC variable-length integer encoding reserves the two most significant
+/// bits of the first byte to encode the base-2 logarithm of the integer encoding length in bytes.
+/// The integer value is encoded on the remaining bits, in network byte order."
+fn put_varint(out: &mut Vec<u8>, v: u64, width: usize) {
+    assert!(v <= VMAX && width >= min_width(v), "harness: {v} does not fit {width} bytes");
+    match width {
+        1 => out.push(v as u8),
+        2 => out.extend_from_slice(&((v as u16) | 0x4000).to_be_bytes()),
+        4 => out.extend_from_slice(&((v as u32) | 0x8000_0000).to_be_bytes()),
+        8 => out.extend_from_slice(&(v | 0xC000_0000_0000_0000).to_be_bytes()),
+        _ => panic!("harness: bad varint width {width}"),
+    }
+}
+
+/// value and encoded width of the varint at the start of `b`
+fn get_varint(b: &[u8]) -> Option<(u64, usize)> {
+    let first = *b.first()?;
+    let width = 1usize << (first >> 6);
+    if b.len() < width {
+        return None;
+    }
+    let mut v = (first & 0x3f) as u64;
+    for x in &b[1..width] {
+        v = (v << 8) | *x as u64;
+    }
+    Some((v, width))
+}
+
+/// RFC 9000 §18: "Transport Parameter { Transport Parameter ID (i), Transport Parameter Length (i),
+/// Transport Parameter Value (..) }" repeated until the end of the extension.
+fn ref_parse(mut b: &[u8]) -> Result<Vec<(u64, &[u8])>, &'static str> {
+    let mut out = vec![];
+    while !b.is_empty() {
+        let (id, w) = get_varint(b).ok_or("truncated parameter id")?;
+        b = &b[w..];
+        let (len, w) = get_varint(b).ok_or("truncated parameter length")?;
+        b = &b[w..];
+        if (b.len() as u64) < len {
+            return Err("parameter length exceeds the extension");
+        }
+        out.push((id, &b[..len as usize]));
+        b = &b[len as usize..];
+    }
+    Ok(out)
+}
+
+// =======================================================================================
+// the RFC table (trusted base)
+
+#[derive(Clone, Copy, Debug, PartialEq, Eq)]
+enum Kind {
+    /// §18.2: "Those transport parameters that are identified as integers use a variable-length
+    /// integer encoding" — the value is exactly one varint (any width, §16: "Values do not need
+    /// to be encoded on the minimum number of bytes necessary"), valid iff min <= v <= max.
+    /// `latitude_above`: values above it are neither declared invalid nor meaningful; either
+    /// outcome is accepted.
+    Int { min: u64, max: u64, latitude_above: Option<u64> },
+    /// a zero-length value
+    Flag,
+    /// a sequence of 16 bytes
+    Token,
+    /// a connection ID: 0..=20 bytes in QUIC v1 (§17.2: "In QUIC version 1, this value MUST NOT
+    /// exceed 20 bytes"). `latitude_below`: shorter values can never match what a compliant peer
+    /// put on the wire, so rejecting them already while decoding has the same outcome as the
+    /// §7.3 mismatch (TRANSPORT_PARAMETER_ERROR); either outcome is accepted.
+    Cid { latitude_below: usize },
+    /// Figure 22
+    PreferredAddress,
+}
+
+struct Row {
+    id: u64,
+    name: &'static str,
+    kind: Kind,
+    /// §18.2: "Transport parameters have a default value of 0 if the transport parameter is
+    /// absent, unless otherwise stated."
+    default: u64,
+    /// §18.2: "A client MUST NOT include any server-only transport parameter:
+    /// original_destination_connection_id, preferred_address, retry_source_connection_id, or
+    /// stateless_reset_token. A server MUST treat receipt of any of these transport parameters as
+    /// a connection error of type TRANSPORT_PARAMETER_ERROR."
+    server_only: bool,
+}
+
+const fn int(min: u64, max: u64) -> Kind {
+    Kind::Int { min, max, latitude_above: None }
+}
+
+const TABLE: &[Row] = &[
+    // "original_destination_connection_id (0x00): This parameter is the value of the Destination
+    // Connection ID field from the first Initial packet sent by the client ... This transport
+    // parameter is only sent by a server." §7.2: "This Destination Connection ID MUST be at least
+    // 8 bytes in length." (=> shorter values can only be a mismatch: latitude)
+    Row { id: 0x00, name: "original_destination_connection_id", kind: Kind::Cid { latitude_below: 8 }, default: 0, server_only: true },
+    // "max_idle_timeout (0x01): The maximum idle timeout is a value in milliseconds that is
+    // encoded as an integer ... Idle timeout is disabled when both endpoints omit this transport
+    // parameter or specify a value of 0."
+    Row { id: 0x01, name: "max_idle_timeout", kind: int(0, VMAX), default: 0, server_only: false },
+    // "stateless_reset_token (0x02): ... This parameter is a sequence of 16 bytes. This transport
+    // parameter MUST NOT be sent by a client but MAY be sent by a server."
+    Row { id: 0x02, name: "stateless_reset_token", kind: Kind::Token, default: 0, server_only: true },
+    // "max_udp_payload_size (0x03): ... The default for this parameter is the maximum permitted
+    // UDP payload of 65527. Values below 1200 are invalid." (values above 65527 exceed "the
+    // maximum permitted UDP payload" but are not declared invalid: latitude)
+    Row { id: 0x03, name: "max_udp_payload_size", kind: Kind::Int { min: 1200, max: VMAX, latitude_above: Some(65527) }, default: 65527, server_only: false },
+    // "initial_max_data (0x04): The initial maximum data parameter is an integer value that
+    // contains the initial value for the maximum amount of data that can be sent on the connection."
+    Row { id: 0x04, name: "initial_max_data", kind: int(0, VMAX), default: 0, server_only: false },
+    // "initial_max_stream_data_bidi_local (0x05): This parameter is an integer value specifying
+    // the initial flow control limit for locally initiated bidirectional streams."
+    Row { id: 0x05, name: "initial_max_stream_data_bidi_local", kind: int(0, VMAX), default: 0, server_only: false },
+    // "initial_max_stream_data_bidi_remote (0x06): This parameter is an integer value specifying
+    // the initial flow control limit for peer-initiated bidirectional streams."
+    Row { id: 0x06, name: "initial_max_stream_data_bidi_remote", kind: int(0, VMAX), default: 0, server_only: false },
+    // "initial_max_stream_data_uni (0x07): This parameter is an integer value specifying the
+    // initial flow control limit for unidirectional streams."
+    Row { id: 0x07, name: "initial_max_stream_data_uni", kind: int(0, VMAX), default: 0, server_only: false },
+    // "initial_max_streams_bidi (0x08): ... If this parameter is absent or zero, the peer cannot
+    // open bidirectional streams until a MAX_STREAMS frame is sent." §4.6: "If a max_streams
+    // transport parameter or a MAX_STREAMS frame is received with a value greater than 2^60 ...
+    // the connection MUST be closed immediately with a connection error of type
+    // TRANSPORT_PARAMETER_ERROR if the offending value was received in a transport parameter"
+    Row { id: 0x08, name: "initial_max_streams_bidi", kind: int(0, 1 << 60), default: 0, server_only: false },
+    // "initial_max_streams_uni (0x09)": same, §4.6
+    Row { id: 0x09, name: "initial_max_streams_uni", kind: int(0, 1 << 60), default: 0, server_only: false },
+    // "ack_delay_exponent (0x0a): ... If this value is absent, a default value of 3 is assumed
+    // (indicating a multiplier of 8). Values above 20 are invalid."
+    Row { id: 0x0a, name: "ack_delay_exponent", kind: int(0, 20), default: 3, server_only: false },
+    // "max_ack_delay (0x0b): ... If this value is absent, a default of 25 milliseconds is assumed.
+    // Values of 2^14 or greater are invalid."
+    Row { id: 0x0b, name: "max_ack_delay", kind: int(0, (1 << 14) - 1), default: 25, server_only: false },
+    // "disable_active_migration (0x0c): ... This parameter is a zero-length value."
+    Row { id: 0x0c, name: "disable_active_migration", kind: Kind::Flag, default: 0, server_only: false },
+    // "preferred_address (0x0d): ... This transport parameter is only sent by a server." Figure 22;
+    // "a server MUST NOT include a zero-length connection ID in this transport parameter. A client
+    // MUST treat a violation of these requirements as a connection error of type
+    // TRANSPORT_PARAMETER_ERROR."
+    Row { id: 0x0d, name: "preferred_address", kind: Kind::PreferredAddress, default: 0, server_only: true },
+    // "active_connection_id_limit (0x0e): ... The value of the active_connection_id_limit
+    // parameter MUST be at least 2. An endpoint that receives a value less than 2 MUST close the
+    // connection with an error of type TRANSPORT_PARAMETER_ERROR. If this transport parameter is
+    // absent, a default of 2 is assumed."
+    Row { id: 0x0e, name: "active_connection_id_limit", kind: int(2, VMAX), default: 2, server_only: false },
+    // "initial_source_connection_id (0x0f): This is the value that the endpoint included in the
+    // Source Connection ID field of the first Initial packet it sends for the connection"
+    Row { id: 0x0f, name: "initial_source_connection_id", kind: Kind::Cid { latitude_below: 0 }, default: 0, server_only: false },
+    // "retry_source_connection_id (0x10): This is the value that the server included in the Source
+    // Connection ID field of a Retry packet ... This transport parameter is only sent by a server."
+    // (§17.2.5: "The server includes a connection ID of its choice in the Source Connection ID
+    // field" — any length 0..=20)
+    Row { id: 0x10, name: "retry_source_connection_id", kind: Kind::Cid { latitude_below: 0 }, default: 0, server_only: true },
+    // RFC 9221 §3: "max_datagram_frame_size, value=0x20 ... is an integer value (represented as a
+    // variable-length integer) ... The default for this parameter is 0, which indicates that the
+    // endpoint does not support DATAGRAM frames."
+    Row { id: 0x20, name: "max_datagram_frame_size", kind: int(0, VMAX), default: 0, server_only: false },
+];
+
+fn row(id: u64) -> Option<&'static Row> {
+    TABLE.iter().find(|r| r.id == id)
+}
+
+/// ids this check must never generate as "unknown": the table's, and s2n's private extension
+/// range (`DcSupportedVersions` 0xdc0000, `MtuProbingCompleteSupport` 0xdc0002; the whole
+/// 0xdc00xx block is avoided)
+fn reserved_id(id: u64) -> bool {
+    row(id).is_some() || (0xdc0000..=0xdc00ff).contains(&id)
+}
+
+fn sanitize_unknown_id(id: u64) -> u64 {
+    let id = id.min(VMAX);
+    if reserved_id(id) {
+        // 0x21.. / 0xdc0100.. are free
+        if id <= 0x20 {
+            0x21 + id
+        } else {
+            id + 0x100
+        }
+    } else {
+        id
+    }
+}
+
+#[derive(Clone, Debug, PartialEq, Eq)]
+struct Pref {
+    v4: Option<([u8; 4], u16)>,
+    v6: Option<([u8; 16], u16)>,
+    cid: Vec<u8>,
+    token: [u8; 16],
+}
+
+/// `value(block)`: what the block declares, RFC defaults for absent parameters
+#[derive(Clone, Debug, Default)]
+struct Values {
+    ints: BTreeMap<u64, u64>,
+    disable_active_migration: bool,
+    cids: BTreeMap<u64, Vec<u8>>,
+    token: Option<Vec<u8>>,
+    pref: Option<Pref>,
+}
+
+impl Values {
+    fn int(&self, id: u64) -> u64 {
+        self.ints[&id]
+    }
+}
+
+#[derive(Clone, Debug)]
+struct Why {
+    param: &'static str,
+    /// short class used in the Fail key
+    class: String,
+    detail: String,
+}
+
+#[derive(Debug, Default)]
+struct Judgement {
+    /// reasons for which RFC 9000 requires the block to be refused
+    rejects: Vec<Why>,
+    /// reasons for which either outcome is permitted
+    latitude: Vec<Why>,
+    values: Values,
+    known_params: usize,
+    unknown_params: usize,
+    dup_known: bool,
+    dup_unknown: bool,
+    role_violation: bool,
+    wrong_length: bool,
+    near_bound: bool,
+    nonminimal_value: bool,
+    malformed_block: bool,
+}
+
+fn why(param: &'static str, class: impl Into<String>, detail: impl Into<String>) -> Why {
+    Why { param, class: class.into(), detail: detail.into() }
+}
+
+fn parse_pref(b: &[u8]) -> Result<Pref, &'static str> {
+    if b.len() < 4 + 2 + 16 + 2 + 1 {
+        return Err("truncated");
+    }
+    let cid_len = b[24] as usize;
+    if b.len() != 25 + cid_len + 16 {
+        return Err(if b.len() < 25 + cid_len + 16 { "truncated" } else { "trailing-bytes" });
+    }
+    let v4ip: [u8; 4] = b[0..4].try_into().unwrap();
+    let v4port = u16::from_be_bytes([b[4], b[5]]);
+    let v6ip: [u8; 16] = b[6..22].try_into().unwrap();
+    let v6port = u16::from_be_bytes([b[22], b[23]]);
+    Ok(Pref {
+        // "sending an all-zero address and port (0.0.0.0:0 or [::]:0) for the other family"
+        v4: (v4ip != [0; 4] || v4port != 0).then_some((v4ip, v4port)),
+        v6: (v6ip != [0; 16] || v6port != 0).then_some((v6ip, v6port)),
+        cid: b[25..25 + cid_len].to_vec(),
+        token: b[25 + cid_len..].try_into().unwrap(),
+    })
+}
+
+fn bounds_of(kind: Kind) -> Vec<u64> {
+    match kind {
+        Kind::Int { min, max, latitude_above } => {
+            let mut v = vec![];
+            if min > 0 {
+                v.push(min);
+            }
+            if max < VMAX {
+                v.push(max);
+            }
+            v.extend(latitude_above);
+            v
+        }
+        _ => vec![],
+    }
+}
+
+/// `accept(block, role)` and `value(block)` in one pass. `role` is the SENDER of the block.
+fn judge(block: &[u8], role: Role) -> Judgement {
+    let mut j = Judgement::default();
+    for r in TABLE {
+        if let Kind::Int { .. } = r.kind {
+            j.values.ints.insert(r.id, r.default);
+        }
+    }
+    let params = match ref_parse(block) {
+        Ok(p) => p,
+        Err(e) => {
+            j.malformed_block = true;
+            j.rejects.push(why("block", "malformed", e));
+            return j;
+        }
+    };
+    let mut seen: Vec<u64> = vec![];
+    for (id, body) in params {
+        let dup = seen.contains(&id);
+        seen.push(id);
+        let Some(r) = row(id) else {
+            j.unknown_params += 1;
+            // §7.4.2: "An endpoint MUST ignore transport parameters that it does not support."
+            if dup {
+                // §7.4: "An endpoint MUST NOT send a parameter more than once ... An endpoint SHOULD
+                // treat receipt of duplicate transport parameters as a connection error": an
+                // endpoint cannot be required to track ids it does not know — either outcome
+                j.dup_unknown = true;
+                j.latitude.push(why("unknown-id", "duplicate", format!("id {id:#x} repeated")));
+            }
+            continue;
+        };
+        j.known_params += 1;
+        if dup {
+            j.dup_known = true;
+            j.rejects.push(why(r.name, "duplicate", format!("{} sent more than once", r.name)));
+            continue;
+        }
+        if r.server_only && role == Role::Client {
+            j.role_violation = true;
+            j.rejects.push(why(r.name, "server-only-from-client", format!("{} in client parameters", r.name)));
+            continue;
+        }
+        match r.kind {
+            Kind::Int { min, max, latitude_above } => match get_varint(body) {
+                Some((v, w)) if w == body.len() => {
+                    j.nonminimal_value |= w > min_width(v);
+                    j.near_bound |= bounds_of(r.kind).iter().any(|b| v.abs_diff(*b) <= 1);
+                    if v < min || v > max {
+                        let class = if (min > 0 && v == min - 1) || (max < VMAX && v == max + 1) {
+                            format!("={v}")
+                        } else {
+                            ":out-of-range".to_string()
+                        };
+                        j.rejects.push(why(r.name, class, format!("{} = {v} is outside {min}..={max}", r.name)));
+                    } else {
+                        if latitude_above.map(|l| v > l).unwrap_or(false) {
+                            j.latitude.push(why(r.name, "above-meaningful-range", format!("{} = {v}", r.name)));
+                        }
+                        j.values.ints.insert(id, v);
+                    }
+                }
+                _ => {
+                    j.wrong_length = true;
+                    j.rejects.push(why(r.name, "not-one-varint", format!("{} value {body:02x?} is not exactly one varint", r.name)));
+                }
+            },
+            Kind::Flag => {
+                if body.is_empty() {
+                    j.values.disable_active_migration = true;
+                } else {
+                    j.wrong_length = true;
+                    j.rejects.push(why(r.name, "nonzero-length", format!("{} with a {}-byte value", r.name, body.len())));
+                }
+            }
+            Kind::Token => {
+                if body.len() == 16 {
+                    j.values.token = Some(body.to_vec());
+                } else {
+                    j.wrong_length = true;
+                    j.rejects.push(why(r.name, "len!=16", format!("{} of {} bytes", r.name, body.len())));
+                }
+            }
+            Kind::Cid { latitude_below } => {
+                if body.len() > 20 {
+                    j.wrong_length = true;
+                    j.rejects.push(why(r.name, "len>20", format!("{} of {} bytes", r.name, body.len())));
+                } else {
+                    if body.len() < latitude_below {
+                        j.latitude.push(why(r.name, "shorter-than-any-compliant-value", format!("{} of {} bytes", r.name, body.len())));
+                    }
+                    j.values.cids.insert(id, body.to_vec());
+                }
+            }
+            Kind::PreferredAddress => match parse_pref(body) {
+                Err(e) => {
+                    j.wrong_length = true;
+                    j.rejects.push(why(r.name, e, format!("{} of {} bytes: {e}", r.name, body.len())));
+                }
+                Ok(p) => {
+                    // §18.2: "The Connection ID and Stateless Reset Token fields of a preferred
+                    // address are identical in syntax and semantics to the corresponding fields of
+                    // a NEW_CONNECTION_ID frame"; §19.15: "Values less than 1 and greater than 20
+                    // are invalid and MUST be treated as a connection error"
+                    if p.cid.is_empty() {
+                        j.wrong_length = true;
+                        j.rejects.push(why(r.name, "zero-length-cid", "preferred_address with a zero-length connection ID"));
+                    } else if p.cid.len() > 20 {
+                        j.wrong_length = true;
+                        j.rejects.push(why(r.name, "cid-len>20", format!("preferred_address connection ID of {} bytes", p.cid.len())));
+                    } else {
+                        if p.v4.is_none() && p.v6.is_none() {
+                            // no sentence declares this invalid, none gives it a meaning
+                            j.latitude.push(why(r.name, "no-address", "preferred_address with both families all-zero"));
+                        }
+                        j.values.pref = Some(p);
+                    }
+                }
+            },
+        }
+    }
+    j
+}
+
+// =======================================================================================
+// case types
+
+#[derive(Clone, Copy, Debug, Hash, PartialEq, Eq, Serialize, Deserialize)]
+pub enum Role {
+    Client,
+    Server,
+}
+
+/// requested varint width; a value that does not fit is written in its minimal width
+#[derive(Clone, Copy, Debug, Hash, PartialEq, Eq, Serialize, Deserialize)]
+pub enum W {
+    Min,
+    B1,
+    B2,
+    B4,
+    B8,
+}
+
+impl W {
+    fn width_for(self, v: u64) -> usize {
+        let want = match self {
+            W::Min => 0,
+            W::B1 => 1,
+            W::B2 => 2,
+            W::B4 => 4,
+            W::B8 => 8,
+        };
+        want.max(min_width(v))
+    }
+}
+
+#[derive(Clone, Debug, Hash, PartialEq, Eq, Serialize, Deserialize)]
+pub enum Body {
+    /// exactly one varint
+    Int { v: u64, w: W },
+    /// any bytes (connection ids, tokens, flags, preferred_address, malformed integers, unknown)
+    Raw(Vec<u8>),
+}
+
+#[derive(Clone, Debug, Hash, PartialEq, Eq, Serialize, Deserialize)]
+pub struct Param {
+    pub id: u64,
+    pub id_w: W,
+    pub len_w: W,
+    pub body: Body,
+}
+
+/// copy of `params[pick(src)]` (optionally with another body) inserted at `pick(at)`
+#[derive(Clone, Debug, Hash, PartialEq, Eq, Serialize, Deserialize)]
+pub struct Dup {
+    pub src: u16,
+    pub at: u16,
+    pub alt: Option<Body>,
+}
+
+#[derive(Clone, Debug, Hash, PartialEq, Eq, Serialize, Deserialize)]
+pub struct Block {
+    /// who sent the block
+    pub role: Role,
+    pub params: Vec<Param>,
+    pub dups: Vec<Dup>,
+    /// cut the encoded block to a strictly shorter length
+    pub cut: Option<u16>,
+}
+
+fn body_bytes(b: &Body) -> Vec<u8> {
+    match b {
+        Body::Int { v, w } => {
+            let v = (*v).min(VMAX);
+            let mut out = vec![];
+            put_varint(&mut out, v, w.width_for(v));
+            out
+        }
+        Body::Raw(r) => r.clone(),
+    }
+}
+
+fn encode_param(out: &mut Vec<u8>, p: &Param) {
+    let id = p.id.min(VMAX);
+    put_varint(out, id, p.id_w.width_for(id));
+    let body = body_bytes(&p.body);
+    put_varint(out, body.len() as u64, p.len_w.width_for(body.len() as u64));
+    out.extend_from_slice(&body);
+}
+
+fn materialize(b: &Block) -> Vec<Param> {
+    let mut ps = b.params.clone();
+    if !b.params.is_empty() {
+        for d in &b.dups {
+            let mut p = b.params[pick_index(d.src, b.params.len())].clone();
+            if let Some(alt) = &d.alt {
+                p.body = alt.clone();
+            }
+            let at = pick_index(d.at, ps.len() + 1);
+            ps.insert(at, p);
+        }
+    }
+    ps
+}
+
+fn encode_block(b: &Block) -> Vec<u8> {
+    let ps = materialize(b);
+    let mut out = vec![];
+    for p in &ps {
+        encode_param(&mut out, p);
+    }
+    // harness invariant: the reference parser reads back exactly what the encoder wrote
+    let back = ref_parse(&out).expect("harness: own encoder output does not parse");
+    assert_eq!(back.len(), ps.len(), "harness: encoder/parser disagree");
+    for ((id, body), p) in back.iter().zip(&ps) {
+        assert!(*id == p.id.min(VMAX) && *body == &body_bytes(&p.body)[..], "harness: encoder/parser disagree");
+    }
+    if let Some(c) = b.cut {
+        let n = pick_index(c, out.len());
+        out.truncate(n);
+    }
+    out
+}
+
+// =======================================================================================
+// the code under test
+
+enum Decoded {
+    Client(ClientTransportParameters),
+    Server(ServerTransportParameters),
+}
+
+/// what the receiver of a block sent by `role` does (session_context.rs: `on_client_params` decodes
+/// `ClientTransportParameters`, `on_server_params` decodes `ServerTransportParameters`)
+fn s2n_decode(bytes: &[u8], role: Role) -> Result<Decoded, String> {
+    let buf = DecoderBuffer::new(bytes);
+    match role {
+        Role::Client => match buf.decode::<ClientTransportParameters>() {
+            Ok((p, rest)) => {
+                if rest.is_empty() {
+                    Ok(Decoded::Client(p))
+                } else {
+                    Err(format!("decode left {} bytes", rest.len()))
+                }
+            }
+            Err(e) => Err(e.to_string()),
+        },
+        Role::Server => match buf.decode::<ServerTransportParameters>() {
+            Ok((p, rest)) => {
+                if rest.is_empty() {
+                    Ok(Decoded::Server(p))
+                } else {
+                    Err(format!("decode left {} bytes", rest.len()))
+                }
+            }
+            Err(e) => Err(e.to_string()),
+        },
+    }
+}
+
+fn hex(b: &[u8]) -> String {
+    b.iter().map(|x| format!("{x:02x}")).collect()
+}
+
+macro_rules! same {
+    ($got:expr, $want:expr, $name:expr, $ctx:expr) => {{
+        let got = $got;
+        let want = $want;
+        if got != want {
+            return Err(Fail::new(
+                format!("C14:{}:wrong-value:accepted", $name),
+                format!("{}: s2n reports {} = {:?}, the block declares {:?}", $ctx, $name, got, want),
+            ));
+        }
+    }};
+}
+
+/// every field both roles share equals `value(block)`
+fn compare_common<A, B, C, D>(p: &TransportParameters<A, B, C, D>, v: &Values, ctx: &str) -> CaseResult {
+    same!(p.max_idle_timeout.as_u64(), v.int(0x01), "max_idle_timeout", ctx);
+    same!(p.max_udp_payload_size.as_u64(), v.int(0x03), "max_udp_payload_size", ctx);
+    same!(p.initial_max_data.as_u64(), v.int(0x04), "initial_max_data", ctx);
+    same!(p.initial_max_stream_data_bidi_local.as_u64(), v.int(0x05), "initial_max_stream_data_bidi_local", ctx);
+    same!(p.initial_max_stream_data_bidi_remote.as_u64(), v.int(0x06), "initial_max_stream_data_bidi_remote", ctx);
+    same!(p.initial_max_stream_data_uni.as_u64(), v.int(0x07), "initial_max_stream_data_uni", ctx);
+    same!(p.initial_max_streams_bidi.as_u64(), v.int(0x08), "initial_max_streams_bidi", ctx);
+    same!(p.initial_max_streams_uni.as_u64(), v.int(0x09), "initial_max_streams_uni", ctx);
+    same!(p.ack_delay_exponent.as_u8() as u64, v.int(0x0a), "ack_delay_exponent", ctx);
+    same!(p.max_ack_delay.as_u64(), v.int(0x0b), "max_ack_delay", ctx);
+    same!(p.migration_support == MigrationSupport::Disabled, v.disable_active_migration, "disable_active_migration", ctx);
+    same!(p.active_connection_id_limit.as_u64(), v.int(0x0e), "active_connection_id_limit", ctx);
+    same!(p.max_datagram_frame_size.as_u64(), v.int(0x20), "max_datagram_frame_size", ctx);
+    same!(
+        p.initial_source_connection_id.as_ref().map(|c| c.as_bytes().to_vec()),
+        v.cids.get(&0x0f).cloned(),
+        "initial_source_connection_id",
+        ctx
+    );
+    // never generated, so they must be at their defaults
+    same!((&p.dc_supported_versions).into_iter().count(), 0usize, "dc_supported_versions", ctx);
+    same!(p.mtu_probing_complete_support == MtuProbingCompleteSupport::Disabled, true, "mtu_probing_complete_support", ctx);
+    Ok(())
+}
+
+fn compare_server(p: &ServerTransportParameters, v: &Values, ctx: &str) -> CaseResult {
+    same!(
+        p.original_destination_connection_id.as_ref().map(|c| c.as_bytes().to_vec()),
+        v.cids.get(&0x00).cloned(),
+        "original_destination_connection_id",
+        ctx
+    );
+    same!(
+        p.retry_source_connection_id.as_ref().map(|c| c.as_bytes().to_vec()),
+        v.cids.get(&0x10).cloned(),
+        "retry_source_connection_id",
+        ctx
+    );
+    same!(p.stateless_reset_token.map(|t| t.into_inner().to_vec()), v.token.clone(), "stateless_reset_token", ctx);
+    let got = p.preferred_address.as_ref().map(|a| Pref {
+        v4: a.ipv4_address.map(|s| ((*s.ip()).into(), s.port())),
+        v6: a.ipv6_address.map(|s| ((*s.ip()).into(), s.port())),
+        cid: a.connection_id.as_bytes().to_vec(),
+        token: a.stateless_reset_token.into_inner(),
+    });
+    same!(got, v.pref.clone(), "preferred_address", ctx);
+    Ok(())
+}
+
+/// label for "the RFC permits this parameter, s2n refuses it"
+fn shape_class(id: u64, body: &[u8]) -> (&'static str, String) {
+    match row(id) {
+        None => ("unknown-id", "ignored-parameter".into()),
+        Some(r) => match r.kind {
+            Kind::Int { .. } => match get_varint(body) {
+                Some((v, w)) if w > min_width(v) => (r.name, "nonminimal-varint".into()),
+                Some((v, _)) => (r.name, format!("value={v}")),
+                None => (r.name, "valid-value".into()),
+            },
+            // label buckets only (which lengths are refused is reported in the message)
+            Kind::Cid { .. } => (
+                r.name,
+                match body.len() {
+                    0..=3 => "len<4".into(),
+                    4..=7 => "len<8".into(),
+                    _ => "len>=8".into(),
+                },
+            ),
+            _ => (r.name, "valid-value".into()),
+        },
+    }
+}
+
+/// one TLV re-encoded canonically around its original value bytes
+fn single_tlv(id: u64, body: &[u8]) -> Vec<u8> {
+    let mut out = vec![];
+    put_varint(&mut out, id, min_width(id));
+    put_varint(&mut out, body.len() as u64, min_width(body.len() as u64));
+    out.extend_from_slice(body);
+    out
+}
+
+pub fn check_bytes(bytes: &[u8], role: Role, obs: &mut Obs) -> CaseResult {
+    let j = judge(bytes, role);
+    let got = s2n_decode(bytes, role);
+    let ctx = format!("block {} sent by a {role:?}", hex(bytes));
+
+    obs.class(match role {
+        Role::Client => "role-client",
+        Role::Server => "role-server",
+    });
+    obs.class_if(j.dup_known, "dup-known");
+    obs.class_if(j.dup_unknown, "dup-unknown");
+    obs.class_if(j.role_violation, "server-only-in-client");
+    obs.class_if(j.wrong_length, "wrong-length");
+    obs.class_if(j.near_bound, "near-bound");
+    obs.class_if(j.nonminimal_value, "nonminimal-value-varint");
+    obs.class_if(j.malformed_block, "malformed-block");
+    obs.class_if(j.unknown_params > 0, "unknown-ids");
+    obs.class_if(j.known_params >= 3, "known>=3");
+    obs.class_if(j.known_params == 0 && j.unknown_params == 0 && !j.malformed_block, "empty-block");
+    obs.class_if(j.values.pref.is_some(), "preferred-address-valid");
+    obs.class_if(j.rejects.iter().any(|w| w.class.starts_with('=') || w.class == ":out-of-range"), "int-out-of-range");
+    obs.nontrivial((j.known_params >= 3 && j.near_bound) || j.dup_known || j.dup_unknown || j.role_violation || j.wrong_length);
+
+    if let Some(w) = j.rejects.first() {
+        obs.class("rfc-rejects");
+        if got.is_ok() {
+            let key = if w.class.starts_with('=') || w.class.starts_with(':') {
+                format!("C14:{}{}:accepted", w.param, w.class)
+            } else {
+                format!("C14:{}:{}:accepted", w.param, w.class)
+            };
+            return Err(Fail::new(key, format!("{ctx}: RFC 9000 requires refusal ({}), s2n accepted it", w.detail)));
+        }
+        return Ok(());
+    }
+    match got {
+        Ok(d) => {
+            obs.class(if j.latitude.is_empty() { "rfc-accepts" } else { "rfc-latitude-accepted" });
+            match &d {
+                Decoded::Client(p) => compare_common(p, &j.values, &ctx)?,
+                Decoded::Server(p) => {
+                    compare_common(p, &j.values, &ctx)?;
+                    compare_server(p, &j.values, &ctx)?;
+                }
+            }
+            Ok(())
+        }
+        Err(e) => {
+            if !j.latitude.is_empty() {
+                obs.class("rfc-latitude-rejected");
+                return Ok(());
+            }
+            obs.class("rfc-accepts");
+            // which parameter does s2n refuse? (first one refused on its own)
+            let params = ref_parse(bytes).expect("harness: judged acceptable but does not parse");
+            for (id, body) in &params {
+                let one = single_tlv(*id, body);
+                if let Err(e1) = s2n_decode(&one, role) {
+                    let (name, class) = shape_class(*id, body);
+                    return Err(Fail::new(
+                        format!("C14:{name}:{class}:rejected"),
+                        format!("{ctx}: every parameter is permitted by RFC 9000, s2n refused it ({e}); parameter {id:#x} alone ({}) is refused too ({e1})", hex(&one)),
+                    ));
+                }
+            }
+            Err(Fail::new(
+                "C14:block:combination:rejected",
+                format!("{ctx}: every parameter is permitted by RFC 9000 and accepted on its own, s2n refused the block ({e})"),
+            ))
+        }
+    }
+}
+
+pub fn check_block(b: &Block, obs: &mut Obs) -> CaseResult {
+    let bytes = encode_block(b);
+    let ps = materialize(b);
+    let nonminimal = |p: &Param| {
+        let len = body_bytes(&p.body).len() as u64;
+        p.id_w.width_for(p.id) > min_width(p.id) || p.len_w.width_for(len) > min_width(len)
+    };
+    obs.class_if(ps.iter().any(nonminimal), "nonminimal-id-or-length");
+    obs.class_if(ps.iter().any(|p| p.id >= 27 && (p.id - 27) % 31 == 0 && !reserved_id(p.id)), "grease-id");
+    obs.class_if(b.cut.is_some(), "cut");
+    obs.units = ps.len() as u64;
+    check_bytes(&bytes, b.role, obs)
+}
+
+// =======================================================================================
+// generator
+
+fn prf_body(seed: u32, len: usize) -> Vec<u8> {
+    prf_vec(KEY, (seed as u64) << 8, len)
+}
+
+fn w_any() -> impl Strategy<Value = W> {
+    prop_oneof![Just(W::Min), Just(W::B1), Just(W::B2), Just(W::B4), Just(W::B8)]
+}
+
+fn w_mostly_min() -> impl Strategy<Value = W> {
+    prop_oneof![30 => Just(W::Min), 1 => Just(W::B2), 1 => prop_oneof![Just(W::B1), Just(W::B4), Just(W::B8)]]
+}
+
+/// {0, 1, bound-1, bound, bound+1, 2^62-1, random}, split into what the table calls valid / invalid
+/// so that the share of refused blocks can be steered (weights only; the verdict is `judge`'s)
+fn int_value(kind: Kind) -> BoxedStrategy<u64> {
+    let Kind::Int { min, max, latitude_above } = kind else { unreachable!() };
+    // "plainly valid": inside the range and not in the latitude zone
+    let max = latitude_above.unwrap_or(max);
+    let mut specials = vec![0, 1, VMAX];
+    for b in bounds_of(kind) {
+        specials.extend([b.saturating_sub(1), b, (b + 1).min(VMAX)]);
+    }
+    let valid: Vec<u64> = specials.iter().copied().filter(|v| (min..=max).contains(v)).collect();
+    let invalid: Vec<u64> = specials.iter().copied().filter(|v| !(min..=max).contains(v)).collect();
+    let span = max - min;
+    let in_range = prop_oneof![0u64..=span.min(70_000), 0u64..=span].prop_map(move |d| min + d);
+    if invalid.is_empty() {
+        prop_oneof![5 => proptest::sample::select(valid), 3 => in_range, 2 => varint_value()].boxed()
+    } else {
+        prop_oneof![
+            16 => proptest::sample::select(valid),
+            10 => in_range,
+            2 => proptest::sample::select(invalid),
+            1 => varint_value(),
+        ]
+        .boxed()
+    }
+}
+
+fn cid_body(latitude_below: usize) -> BoxedStrategy<Vec<u8>> {
+    let len = prop_oneof![
+        8 => proptest::sample::select(vec![0usize, 1, 3, 4, 7, 8, 19, 20]).prop_map(move |l| if l < latitude_below { 20 - l } else { l }),
+        4 => latitude_below..=20,
+        1 => 0usize..=20,
+        1 => proptest::sample::select(vec![21usize, 22, 32, 255]),
+    ];
+    (len, any::<u32>()).prop_map(|(l, s)| prf_body(s, l)).boxed()
+}
+
+fn pref_body() -> BoxedStrategy<Vec<u8>> {
+    // address family: 0 = all-zero, 1 = zero ip with a port, 2 = ordinary
+    let fam = || prop_oneof![2 => Just(0u8), 1 => Just(1u8), 6 => Just(2u8)];
+    let cid_len = prop_oneof![
+        10 => proptest::sample::select(vec![1u8, 4, 8, 19, 20]),
+        3 => 1u8..=20,
+        1 => Just(0u8),
+        1 => proptest::sample::select(vec![21u8, 64, 255]),
+    ];
+    // 0 = exact, 1.. = bytes cut from the end, negative = bytes appended
+    let len_fault = prop_oneof![16 => Just(0i8), 1 => 1i8..=17, 1 => -2i8..=-1];
+    (fam(), fam(), cid_len, len_fault, any::<u32>())
+        .prop_map(|(f4, f6, cid_len, fault, seed)| {
+            let rnd = prf_body(seed, 64);
+            let mut b = vec![];
+            match f4 {
+                0 => b.extend_from_slice(&[0; 6]),
+                1 => b.extend_from_slice(&[0, 0, 0, 0, 0x01, 0xbb]),
+                _ => b.extend_from_slice(&[192, 0, 2, rnd[0] | 1, rnd[1], rnd[2]]),
+            }
+            match f6 {
+                0 => b.extend_from_slice(&[0; 18]),
+                1 => {
+                    b.extend_from_slice(&[0; 16]);
+                    b.extend_from_slice(&[0x11, 0x51]);
+                }
+                _ => {
+                    b.extend_from_slice(&[0x20, 0x01, 0x0d, 0xb8]);
+                    b.extend_from_slice(&rnd[3..15]);
+                    b.extend_from_slice(&[rnd[15], rnd[16]]);
+                }
+            }
+            b.push(cid_len);
+            b.extend(prf_body(seed ^ 0x5a5a, cid_len as usize));
+            b.extend_from_slice(&rnd[20..36]);
+            if fault > 0 {
+                let n = b.len().saturating_sub(fault as usize);
+                b.truncate(n);
+            } else {
+                b.extend_from_slice(&rnd[40..40 + (-fault) as usize]);
+            }
+            b
+        })
+        .boxed()
+}
+
+fn known_body(r: &'static Row) -> BoxedStrategy<Body> {
+    match r.kind {
+        Kind::Int { .. } => {
+            // ack_delay_exponent in a non-minimal width is a known disagreement: keep that class
+            // small so that the other parameters of the block still get compared
+            let w = if r.id == 0x0a { w_mostly_min().boxed() } else { w_any().boxed() };
+            let good = (int_value(r.kind), w).prop_map(|(v, w)| Body::Int { v, w });
+            // a value that is not exactly one varint: trailing byte / cut short / empty
+            let bad = (int_value(r.kind), w_any(), 0u8..3).prop_map(|(v, w, k)| {
+                let mut b = body_bytes(&Body::Int { v, w });
+                match k {
+                    0 => b.push(0),
+                    1 => {
+                        b.pop();
+                    }
+                    _ => b.clear(),
+                }
+                Body::Raw(b)
+            });
+            prop_oneof![80 => good, 1 => bad].boxed()
+        }
+        Kind::Flag => prop_oneof![
+            9 => Just(Body::Raw(vec![])),
+            1 => proptest::sample::select(vec![vec![0u8], vec![1], vec![0, 0], vec![0x40, 0]]).prop_map(Body::Raw),
+        ]
+        .boxed(),
+        Kind::Token => (
+            prop_oneof![9 => Just(16usize), 1 => proptest::sample::select(vec![0usize, 1, 15, 17, 32])],
+            any::<u32>(),
+        )
+            .prop_map(|(l, s)| Body::Raw(prf_body(s, l)))
+            .boxed(),
+        Kind::Cid { latitude_below } => cid_body(latitude_below).prop_map(Body::Raw).boxed(),
+        Kind::PreferredAddress => pref_body().prop_map(Body::Raw).boxed(),
+    }
+}
+
+fn known_slot(r: &'static Row, role: Role) -> BoxedStrategy<Option<Param>> {
+    // server-only parameters are rare in client blocks (they decide the verdict on their own)
+    let present: f64 = if r.server_only && role == Role::Client { 0.03 } else { 0.36 };
+    (prop::bool::weighted(present), known_body(r), w_mostly_min(), w_mostly_min())
+        .prop_map(move |(on, body, id_w, len_w)| on.then(|| Param { id: r.id, id_w, len_w, body }))
+        .boxed()
+}
+
+fn unknown_id() -> BoxedStrategy<u64> {
+    prop_oneof![
+        // GREASE, §18.1: "Transport parameters with an identifier of the form 31 * N + 27 for
+        // integer values of N are reserved to exercise the requirement that unknown transport
+        // parameters be ignored."
+        4 => prop_oneof![0u64..40, 0u64..=(VMAX - 27) / 31, Just((VMAX - 27) / 31)].prop_map(|n| 31 * n + 27),
+        // right next to the known ids
+        3 => 0x11u64..0x60,
+        2 => prop_oneof![Just(0xdbffffu64), Just(0xdc0100), 0xdb0000u64..0xdd0000],
+        2 => varint_value(),
+    ]
+    .prop_map(sanitize_unknown_id)
+    .boxed()
+}
+
+fn unknown_param() -> BoxedStrategy<Param> {
+    let len = prop_oneof![2 => Just(0usize), 2 => 1usize..=8, 2 => 0usize..=64, 1 => Just(64usize)];
+    (unknown_id(), len, any::<u32>(), w_mostly_min(), w_mostly_min())
+        .prop_map(|(id, l, s, id_w, len_w)| Param { id, id_w, len_w, body: Body::Raw(prf_body(s, l)) })
+        .boxed()
+}
+
+fn alt_body() -> BoxedStrategy<Option<Body>> {
+    prop_oneof![
+        2 => Just(None),
+        1 => (varint_value(), w_any()).prop_map(|(v, w)| Some(Body::Int { v, w })),
+        1 => (0usize..=20, any::<u32>()).prop_map(|(l, s)| Some(Body::Raw(prf_body(s, l)))),
+    ]
+    .boxed()
+}
+
+fn block_for(role: Role) -> BoxedStrategy<Block> {
+    let slots: Vec<BoxedStrategy<Option<Param>>> = TABLE.iter().map(|r| known_slot(r, role)).collect();
+    let unknown = prop_oneof![
+        5 => Just(vec![]).boxed(),
+        5 => prop::collection::vec(unknown_param(), 1..4).boxed(),
+    ];
+    let params = (slots, unknown)
+        .prop_map(|(known, unknown)| known.into_iter().flatten().chain(unknown).collect::<Vec<Param>>())
+        .prop_shuffle();
+    let dup = (any::<u16>(), any::<u16>(), alt_body()).prop_map(|(src, at, alt)| Dup { src, at, alt });
+    let dups = prop_oneof![
+        85 => Just(vec![]).boxed(),
+        10 => prop::collection::vec(dup.clone(), 1..=1).boxed(),
+        5 => prop::collection::vec(dup, 2..=2).boxed(),
+    ];
+    let cut = prop_oneof![39 => Just(None), 1 => any::<u16>().prop_map(Some)];
+    (params, dups, cut).prop_map(move |(params, dups, cut)| Block { role, params, dups, cut }).boxed()
+}
+
+fn block_strategy(_t: Tier) -> BoxedStrategy<Block> {
+    prop_oneof![block_for(Role::Client), block_for(Role::Server)].boxed()
+}
+
+// =======================================================================================
+// complete enumeration of single-parameter boundaries
+
+const ENUM_INTS: &[u64] = &[
+    0, 1, 2, 3, 19, 20, 21, 22, 24, 25, 26, 62, 63, 64, 65, 255, 256, 1199, 1200, 1201, 16382, 16383, 16384, 16385,
+    65526, 65527, 65528, 65535, 65536, (1 << 30) - 1, 1 << 30, (1 << 32) - 1, 1 << 32, (1 << 60) - 1, 1 << 60,
+    (1 << 60) + 1, VMAX - 1, VMAX,
+];
+
+fn fixed_cid(tag: u8, len: usize) -> Vec<u8> {
+    (0..len).map(|i| tag.wrapping_add(i as u8)).collect()
+}
+
+fn plain(id: u64, body: Body) -> Param {
+    Param { id, id_w: W::Min, len_w: W::Min, body }
+}
+
+fn fixed_pref(v4: bool, v6: bool, cid_len: u8) -> Vec<u8> {
+    let mut b = vec![];
+    b.extend_from_slice(if v4 { &[192, 0, 2, 1, 0x01, 0xbb] } else { &[0; 6] });
+    if v6 {
+        b.extend_from_slice(&[0x20, 0x01, 0x0d, 0xb8, 0, 0, 0, 0, 0, 0, 0, 0, 0, 0, 0, 1, 0x01, 0xbb]);
+    } else {
+        b.extend_from_slice(&[0; 18]);
+    }
+    b.push(cid_len);
+    b.extend(fixed_cid(0xc0, cid_len as usize));
+    b.extend(fixed_cid(0x70, 16));
+    b
+}
+
+/// the small valid block each probe is embedded in
+fn base(role: Role) -> Vec<Param> {
+    let mut v = vec![];
+    if role == Role::Server {
+        v.push(plain(0x00, Body::Raw(fixed_cid(0xa0, 8))));
+    }
+    v.push(plain(0x0f, Body::Raw(fixed_cid(0xb0, 8))));
+    v.push(plain(0x04, Body::Int { v: 100_000, w: W::Min }));
+    v.push(plain(0x08, Body::Int { v: 100, w: W::Min }));
+    v
+}
+
+fn variants(r: &'static Row) -> Vec<Body> {
+    let mut out = vec![];
+    match r.kind {
+        Kind::Int { .. } => {
+            for &v in ENUM_INTS {
+                for w in [W::B1, W::B2, W::B4, W::B8] {
+                    if w.width_for(v) == w.width_for(0) {
+                        out.push(Body::Int { v, w });
+                    }
+                }
+            }
+            // not exactly one varint
+            out.push(Body::Raw(vec![]));
+            out.push(Body::Raw(vec![0x05, 0x00]));
+            out.push(Body::Raw(vec![0x40]));
+            out.push(Body::Raw(vec![0x80, 0, 0]));
+            out.push(Body::Raw(vec![0xc0, 0, 0, 0, 0, 0, 0]));
+            out.push(Body::Raw(vec![0x40, 0x05, 0x00]));
+        }
+        Kind::Flag => {
+            for b in [vec![], vec![0u8], vec![1], vec![0, 0], vec![0x40, 0x00]] {
+                out.push(Body::Raw(b));
+            }
+        }
+        Kind::Token => {
+            for l in [0usize, 1, 15, 16, 17, 32] {
+                out.push(Body::Raw(fixed_cid(0x10, l)));
+            }
+        }
+        Kind::Cid { .. } => {
+            for l in 0usize..=22 {
+                out.push(Body::Raw(fixed_cid(0xd0, l)));
+            }
+            out.push(Body::Raw(fixed_cid(0xd0, 255)));
+        }
+        Kind::PreferredAddress => {
+            for (v4, v6) in [(true, true), (true, false), (false, true), (false, false)] {
+                for cid_len in [0u8, 1, 4, 8, 20, 21, 255] {
+                    out.push(Body::Raw(fixed_pref(v4, v6, cid_len)));
+                }
+            }
+            // zero ip with a port is an address
+            let mut b = fixed_pref(false, false, 4);
+            b[5] = 1;
+            out.push(Body::Raw(b));
+            let full = fixed_pref(true, true, 8);
+            for cut in [1usize, 16, 17, 25, full.len()] {
+                out.push(Body::Raw(full[..full.len() - cut].to_vec()));
+            }
+            let mut long = full.clone();
+            long.push(0);
+            out.push(Body::Raw(long));
+        }
+    }
+    out
+}
+
+fn enum_blocks() -> &'static Vec<Block> {
+    static CACHE: OnceLock<Vec<Block>> = OnceLock::new();
+    CACHE.get_or_init(|| {
+        let mut out = vec![];
+        for role in [Role::Client, Role::Server] {
+            let mk = |params: Vec<Param>| Block { role, params, dups: vec![], cut: None };
+            let base_without = |id: u64| base(role).into_iter().filter(|p| p.id != id).collect::<Vec<_>>();
+            out.push(mk(vec![]));
+            out.push(mk(base(role)));
+            for r in TABLE {
+                let vars = variants(r);
+                for body in &vars {
+                    let probe = plain(r.id, body.clone());
+                    // alone, first, last
+                    out.push(mk(vec![probe.clone()]));
+                    let mut first = vec![probe.clone()];
+                    first.extend(base_without(r.id));
+                    out.push(mk(first));
+                    let mut last = base_without(r.id);
+                    last.push(probe);
+                    out.push(mk(last));
+                }
+                // a value the table accepts, for the duplicate / id-width / length-width probes
+                let good = match r.kind {
+                    Kind::Int { min, .. } => Body::Int { v: min.max(3), w: W::Min },
+                    Kind::Flag => Body::Raw(vec![]),
+                    Kind::Token => Body::Raw(fixed_cid(0x10, 16)),
+                    Kind::Cid { .. } => Body::Raw(fixed_cid(0xd0, 8)),
+                    Kind::PreferredAddress => Body::Raw(fixed_pref(true, true, 8)),
+                };
+                let other = match r.kind {
+                    Kind::Int { min, .. } => Body::Int { v: min.max(3) + 1, w: W::Min },
+                    Kind::Cid { .. } => Body::Raw(fixed_cid(0xe0, 9)),
+                    _ => good.clone(),
+                };
+                for (second, gap) in [(good.clone(), false), (good.clone(), true), (other.clone(), false), (other, true)] {
+                    let mut ps = vec![plain(r.id, good.clone())];
+                    if gap {
+                        ps.extend(base_without(r.id));
+                    }
+                    ps.push(plain(r.id, second));
+                    if !gap {
+                        ps.extend(base_without(r.id));
+                    }
+                    out.push(mk(ps));
+                }
+                for id_w in [W::B1, W::B2, W::B4, W::B8] {
+                    for len_w in [W::B1, W::B2, W::B4, W::B8] {
+                        let mut ps = base_without(r.id);
+                        ps.push(Param { id: r.id, id_w, len_w, body: good.clone() });
+                        out.push(mk(ps));
+                    }
+                }
+            }
+            // unknown ids: GREASE, neighbours of the known ids and of s2n's private range, the extremes
+            let grease_max = 31 * ((VMAX - 27) / 31) + 27;
+            for id in [27u64, 58, 89, 31 * 1000 + 27, grease_max, 0x11, 0x12, 0x1f, 0x21, 0x3f, 0x40, 0xff, 0x2ab2, 0xdbffff, 0xdc0100, 0xff04de1b, VMAX] {
+                assert!(!reserved_id(id));
+                for len in [0usize, 1, 2, 16, 63, 64] {
+                    for id_w in [W::Min, W::B8] {
+                        let mut ps = base(role);
+                        ps.insert(1, Param { id, id_w, len_w: W::Min, body: Body::Raw(fixed_cid(0x33, len)) });
+                        out.push(mk(ps));
+                    }
+                }
+                // the same unknown id twice
+                let mut ps = base(role);
+                ps.insert(0, plain(id, Body::Raw(vec![1])));
+                ps.push(plain(id, Body::Raw(vec![2, 3])));
+                out.push(mk(ps));
+            }
+            // the base block cut at every length
+            let n = encode_block(&mk(base(role))).len();
+            for c in 0..n {
+                // pick_index(c', n) == c  for  c' = ceil(c * 65536 / n)
+                let choice = ((c as u64 * 65536).div_ceil(n as u64)) as u16;
+                assert_eq!(pick_index(choice, n), c);
+                out.push(Block { role, params: base(role), dups: vec![], cut: Some(choice) });
+            }
+        }
+        out
+    })
+}
+
+// =======================================================================================
+// "applied": conversions from accepted parameters to limits
+
+#[derive(Clone, Copy, Debug, Hash, PartialEq, Eq, Serialize, Deserialize)]
+pub enum LocalIdle {
+    /// our own max_idle_timeout in ms
+    Abs(u64),
+    /// relative to the peer's
+    Peer(i8),
+}
+
+#[derive(Clone, Debug, Hash, PartialEq, Eq, Serialize, Deserialize)]
+pub struct Applied {
+    /// who declared the parameters
+    pub role: Role,
+    /// one entry per integer row of the table, in table order; None = absent
+    pub ints: Vec<Option<(u64, W)>>,
+    pub disable_active_migration: bool,
+    pub local_idle: LocalIdle,
+    pub stream_ids: Vec<u64>,
+    pub ack_delay_field: u64,
+}
+
+fn int_rows() -> Vec<&'static Row> {
+    TABLE.iter().filter(|r| matches!(r.kind, Kind::Int { .. })).collect()
+}
+
+/// values the table accepts without latitude, biased to the bounds, mostly distinct
+fn valid_int(kind: Kind) -> BoxedStrategy<u64> {
+    let Kind::Int { min, max, latitude_above } = kind else { unreachable!() };
+    let max = latitude_above.unwrap_or(max);
+    let mut specials = vec![min, min + 1, max - 1, max];
+    for p in VARINT_POINTS {
+        if (min..=max).contains(p) {
+            specials.push(*p);
+        }
+    }
+    let span = max - min;
+    prop_oneof![
+        2 => proptest::sample::select(specials),
+        3 => (0u64..=span.min(100_000)).prop_map(move |d| min + d),
+        2 => (0u64..=span).prop_map(move |d| min + d),
+    ]
+    .boxed()
+}
+
+fn applied_strategy(_t: Tier) -> BoxedStrategy<Applied> {
+    let ints: Vec<BoxedStrategy<Option<(u64, W)>>> = int_rows()
+        .into_iter()
+        .map(|r| {
+            // (ack_delay_exponent only in its minimal width here: see the known finding)
+            let w = if r.id == 0x0a { Just(W::Min).boxed() } else { w_any().boxed() };
+            (prop::bool::weighted(0.7), valid_int(r.kind), w).prop_map(|(on, v, w)| on.then_some((v, w))).boxed()
+        })
+        .collect();
+    let local = prop_oneof![
+        2 => Just(LocalIdle::Abs(0)),
+        3 => (-2i8..=2).prop_map(LocalIdle::Peer),
+        3 => (1u64..200_000).prop_map(LocalIdle::Abs),
+        1 => varint_value().prop_map(LocalIdle::Abs),
+    ];
+    let sid = prop_oneof![3 => 0u64..64, 1 => varint_value()];
+    (
+        prop_oneof![Just(Role::Client), Just(Role::Server)],
+        ints,
+        any::<bool>(),
+        local,
+        prop::collection::vec(sid, 4..=8),
+        prop_oneof![2 => 0u64..100_000, 1 => varint_value()],
+    )
+        .prop_map(|(role, ints, disable_active_migration, local_idle, stream_ids, ack_delay_field)| Applied {
+            role,
+            ints,
+            disable_active_migration,
+            local_idle,
+            stream_ids,
+            ack_delay_field,
+        })
+        .boxed()
+}
+
+macro_rules! applied {
+    ($cond:expr, $param:expr, $class:expr, $($arg:tt)*) => {
+        if !($cond) {
+            return Err(Fail::new(format!("C14:{}:{}:applied", $param, $class), format!($($arg)*)));
+        }
+    };
+}
+
+fn check_applied_params<A, B, C, D>(
+    a: &Applied,
+    p: &TransportParameters<A, B, C, D>,
+    v: &Values,
+    ctx: &str,
+    obs: &mut Obs,
+) -> CaseResult {
+    let (bidi_local, bidi_remote, uni) = (v.int(0x05), v.int(0x06), v.int(0x07));
+
+    // --- flow control: what the receiver may send / open ---
+    let fc = p.flow_control_limits();
+    // "initial_max_data (0x04): ... the initial value for the maximum amount of data that can be
+    // sent on the connection"
+    applied!(fc.max_data.as_u64() == v.int(0x04), "initial_max_data", "connection-limit", "{ctx}: connection send limit {} != declared initial_max_data {}", fc.max_data.as_u64(), v.int(0x04));
+    // "initial_max_streams_bidi (0x08): ... the initial maximum number of bidirectional streams the
+    // endpoint that receives this transport parameter is permitted to initiate" (from the
+    // declarer's side these are the remotely opened streams)
+    applied!(fc.max_open_remote_bidirectional_streams.as_u64() == v.int(0x08), "initial_max_streams_bidi", "stream-count-limit", "{ctx}: bidirectional stream limit {} != declared {}", fc.max_open_remote_bidirectional_streams.as_u64(), v.int(0x08));
+    applied!(fc.max_open_remote_unidirectional_streams.as_u64() == v.int(0x09), "initial_max_streams_uni", "stream-count-limit", "{ctx}: unidirectional stream limit {} != declared {}", fc.max_open_remote_unidirectional_streams.as_u64(), v.int(0x09));
+    let sl = p.stream_limits();
+    applied!(sl == fc.stream_limits, "initial_max_stream_data", "inconsistent-conversions", "{ctx}: stream_limits() {sl:?} != flow_control_limits().stream_limits {:?}", fc.stream_limits);
+
+    // per stream id (§18.2, by the two least significant bits of the stream id, §2.1:
+    // 0x00 client-initiated bidi, 0x01 server-initiated bidi, 0x02 client-initiated uni,
+    // 0x03 server-initiated uni). `max_data(declarer, id)` as used by stream/manager.rs
+    // (`initial_peer_limits.stream_limits.max_data(local.peer_type(), id)`).
+    let declarer = match a.role {
+        Role::Client => endpoint::Type::Client,
+        Role::Server => endpoint::Type::Server,
+    };
+    for &sid in &a.stream_ids {
+        let sid = sid.min(VMAX);
+        let want = match (a.role, sid & 3) {
+            // "In client transport parameters, this [bidi_local] applies to streams with an identifier
+            // with the least significant two bits set to 0x00; in server transport parameters ... 0x01."
+            (Role::Client, 0) | (Role::Server, 1) => Some(bidi_local),
+            // "In client transport parameters, this [bidi_remote] applies to ... 0x01; in server
+            // transport parameters ... 0x00."
+            (Role::Client, 1) | (Role::Server, 0) => Some(bidi_remote),
+            // "In client transport parameters, this [uni] applies to ... 0x03; in server transport
+            // parameters ... 0x02."
+            (Role::Client, 3) | (Role::Server, 2) => Some(uni),
+            // the declarer's own unidirectional streams: it never receives on them, no limit defined
+            _ => None,
+        };
+        if let Some(want) = want {
+            let got = sl.max_data(declarer, StreamId::from_varint(VarInt::new(sid).unwrap()));
+            applied!(got.as_u64() == want, "initial_max_stream_data", "wrong-stream-type", "{ctx}: limit for stream {sid} (type bits {:#04b}) is {}, the {:?} declared {want} for it (bidi_local {bidi_local}, bidi_remote {bidi_remote}, uni {uni})", sid & 3, got.as_u64(), a.role);
+        }
+    }
+
+    // --- acknowledgements ---
+    let ack = p.ack_settings();
+    // "max_ack_delay (0x0b): ... the maximum amount of time in milliseconds"
+    applied!(ack.max_ack_delay == Duration::from_millis(v.int(0x0b)), "max_ack_delay", "ack-settings", "{ctx}: ack settings max_ack_delay {:?} != declared {} ms", ack.max_ack_delay, v.int(0x0b));
+    applied!(ack.ack_delay_exponent as u64 == v.int(0x0a), "ack_delay_exponent", "ack-settings", "{ctx}: ack settings exponent {} != declared {}", ack.ack_delay_exponent, v.int(0x0a));
+    // §19.3 "ACK Delay: ... It is decoded by multiplying the value in the field by 2 to the power of
+    // the ack_delay_exponent transport parameter sent by the sender of the ACK frame" (microseconds)
+    let field = a.ack_delay_field.min(VMAX);
+    let want_us = (field as u128) << v.int(0x0a);
+    let got = ack.decode_ack_delay(VarInt::new(field).unwrap());
+    applied!(got.as_micros() == want_us, "ack_delay_exponent", "ack-delay-decoding", "{ctx}: ACK Delay field {field} decodes to {} us, RFC: {want_us} us", got.as_micros());
+
+    // --- datagrams (RFC 9221 §3: "the maximum size of a DATAGRAM frame (including the frame type,
+    // length, and payload) the endpoint is willing to receive, in bytes"; "The default for this
+    // parameter is 0, which indicates that the endpoint does not support DATAGRAM frames") ---
+    let dg = p.datagram_limits().max_datagram_payload;
+    let frame = v.int(0x20);
+    applied!(frame != 0 || dg == 0, "max_datagram_frame_size", "datagrams-without-support", "{ctx}: peer does not support DATAGRAM frames but the payload limit is {dg}");
+    applied!(dg <= v.int(0x03), "max_udp_payload_size", "datagram-payload-limit", "{ctx}: datagram payload limit {dg} exceeds the declared max_udp_payload_size {}", v.int(0x03));
+
+    // --- §7.4.1 remembered values ---
+    let z = p.zero_rtt_parameters();
+    applied!(
+        z.active_connection_id_limit.as_u64() == v.int(0x0e)
+            && z.initial_max_data.as_u64() == v.int(0x04)
+            && z.initial_max_stream_data_bidi_local.as_u64() == bidi_local
+            && z.initial_max_stream_data_bidi_remote.as_u64() == bidi_remote
+            && z.initial_max_stream_data_uni.as_u64() == uni
+            && z.initial_max_streams_bidi.as_u64() == v.int(0x08)
+            && z.initial_max_streams_uni.as_u64() == v.int(0x09)
+            && z.max_datagram_frame_size.as_u64() == frame,
+        "zero_rtt_parameters",
+        "wrong-value",
+        "{ctx}: remembered 0-RTT values {z:?} differ from the declared ones"
+    );
+
+    // --- idle timeout (§10.1: "the effective value at an endpoint is computed as the minimum of
+    // the two advertised values (or the sole advertised value, if only one endpoint advertises a
+    // non-zero value)"; §18.2: "Idle timeout is disabled when both endpoints omit this transport
+    // parameter or specify a value of 0.") ---
+    let peer = v.int(0x01);
+    let local = match a.local_idle {
+        LocalIdle::Abs(x) => x.min(VMAX),
+        LocalIdle::Peer(d) => peer.saturating_add_signed(d as i64).min(VMAX),
+    };
+    let mut limits = Limits::new()
+        .with_max_idle_timeout(Duration::from_millis(local))
+        .expect("harness: local idle timeout must be configurable");
+    limits.load_peer(p);
+    let want = match (local, peer) {
+        (0, 0) => None,
+        (0, x) | (x, 0) => Some(x),
+        (x, y) => Some(x.min(y)),
+    };
+    let got = limits.max_idle_timeout();
+    applied!(got == want.map(Duration::from_millis), "max_idle_timeout", "effective-value", "{ctx}: local max_idle_timeout {local} ms, peer {peer} ms: effective {got:?}, RFC: {want:?} ms");
+
+    let present = a.ints.iter().filter(|x| x.is_some()).count();
+    let distinct = bidi_local != bidi_remote && bidi_remote != uni && bidi_local != uni;
+    obs.class_if(distinct, "stream-limits-distinct");
+    obs.class_if(local != 0 && peer != 0 && local != peer, "idle-both-set-differ");
+    obs.class_if(local == 0 || peer == 0, "idle-one-disabled");
+    obs.class_if(frame > 0, "datagrams-supported");
+    obs.nontrivial(present >= 3 && distinct && local != peer);
+    Ok(())
+}
+
+pub fn check_applied(a: &Applied, obs: &mut Obs) -> CaseResult {
+    let rows = int_rows();
+    assert_eq!(rows.len(), a.ints.len(), "harness: Applied.ints must have one entry per integer row");
+    let mut params = vec![];
+    for (r, x) in rows.iter().zip(&a.ints) {
+        if let Some((v, w)) = x {
+            params.push(plain(r.id, Body::Int { v: *v, w: *w }));
+        }
+    }
+    if a.disable_active_migration {
+        params.push(plain(0x0c, Body::Raw(vec![])));
+    }
+    let bytes = encode_block(&Block { role: a.role, params, dups: vec![], cut: None });
+    let ctx = format!("block {} sent by a {:?}", hex(&bytes), a.role);
+    let j = judge(&bytes, a.role);
+    if !j.rejects.is_empty() || !j.latitude.is_empty() {
+        // only reachable through a hand-edited replay file
+        obs.class("not-a-plainly-valid-block");
+        return Ok(());
+    }
+    obs.units = j.known_params as u64;
+    let decoded = match s2n_decode(&bytes, a.role) {
+        Ok(d) => d,
+        // same verdict (and key) as params_blocks
+        Err(_) => return check_bytes(&bytes, a.role, &mut Obs::default()),
+    };
+    match &decoded {
+        Decoded::Client(p) => {
+            compare_common(p, &j.values, &ctx)?;
+            check_applied_params(a, p, &j.values, &ctx, obs)?;
+            reencode(p, a.role, &j.values, &ctx)?;
+            datagram_overhead(p, &j.values, &ctx)
+        }
+        Decoded::Server(p) => {
+            compare_common(p, &j.values, &ctx)?;
+            check_applied_params(a, p, &j.values, &ctx, obs)?;
+            reencode(p, a.role, &j.values, &ctx)?;
+            datagram_overhead(p, &j.values, &ctx)
+        }
+    }
+}
+
+/// checked last so that a listed finding here does not hide the other conversions.
+/// RFC 9221 §3: max_datagram_frame_size is "the maximum size of a DATAGRAM frame (including the
+/// frame type, length, and payload)": a frame carrying n payload bytes is at least n + 1 bytes long,
+/// so the largest payload the peer can take is at most max_datagram_frame_size - 1.
+fn datagram_overhead<A, B, C, D>(p: &TransportParameters<A, B, C, D>, v: &Values, ctx: &str) -> CaseResult {
+    let dg = p.datagram_limits().max_datagram_payload;
+    let frame = v.int(0x20);
+    applied!(frame == 0 || dg < frame, "max_datagram_frame_size", "payload-limit-ignores-frame-overhead", "{ctx}: datagram payload limit {dg} does not fit into a DATAGRAM frame of the declared max_datagram_frame_size {frame} (frame type byte + payload)");
+    Ok(())
+}
+
+/// what s2n itself would send for these values must be acceptable to the table and declare the same
+/// values (absent = default)
+fn reencode<P: EncoderValue>(p: &P, role: Role, v: &Values, ctx: &str) -> CaseResult {
+    let out = p.encode_to_vec();
+    let j = judge(&out, role);
+    applied!(j.rejects.is_empty(), "encoder", "emits-forbidden-block", "{ctx}: re-encoded by s2n as {}, which RFC 9000 forbids: {:?}", hex(&out), j.rejects.first().map(|w| &w.detail));
+    applied!(
+        j.values.ints == v.ints && j.values.disable_active_migration == v.disable_active_migration,
+        "encoder",
+        "changes-values",
+        "{ctx}: re-encoded by s2n as {}, which declares {:?} instead of {:?}",
+        hex(&out),
+        j.values.ints,
+        v.ints
+    );
+    Ok(())
+}
+
+// =======================================================================================
 
 pub fn subs() -> Vec<Box<dyn SubCheck>> {
-    vec![]
+    vec![
+        Box::new(EnumCheck::<Block> {
+            name: "params_boundary_exhaustive",
+            total: |_| enum_blocks().len() as u64,
+            case: |_, i| enum_blocks()[i as usize].clone(),
+            oracle: check_block,
+        }),
+        Box::new(PropCheck::<Block, _> {
+            name: "params_blocks",
+            cases: |t| t.pick(1_000_000, 100_000_000),
+            strategy: block_strategy,
+            oracle: check_block,
+            max_shrink_iters: 20_000,
+        }),
+        Box::new(PropCheck::<Applied, _> {
+            name: "params_applied",
+            cases: |t| t.pick(300_000, 25_000_000),
+            strategy: applied_strategy,
+            oracle: check_applied,
+            max_shrink_iters: 20_000,
+        }),
+    ]
 }
 
 pub fn property() -> Property {
     Property {
         id: "C14",
-        rule: "",
-        assumptions: &[],
+        rule: "transport-parameter blocks written by the check's own varint/TLV encoder: any subset of the RFC 9000 §18.2 \
+               parameters + max_datagram_frame_size + GREASE/unknown ids (lengths 0..64), integer values from {0, 1, bound-1, \
+               bound, bound+1, 2^62-1, random} in every varint width, non-minimal id/length varints, flag/token/connection-id/\
+               preferred_address values of right and wrong lengths, values that are not exactly one varint, any order, 0-2 \
+               duplicates, server-only parameters in client blocks, truncated blocks, both roles; judged by a table transcribed \
+               from RFC 9000 §7.4/§18.2/§4.6 and RFC 9221 §3 and compared with Client/ServerTransportParameters::decode \
+               (verdict both ways, every reported field on acceptance). params_boundary_exhaustive enumerates every \
+               single-parameter boundary value x width x role x position (alone/first/last in a small valid block), all \
+               duplicate pairs, id/length widths and truncations. params_applied: valid blocks -> flow_control_limits, \
+               stream_limits().max_data per stream id, ack_settings (+ACK Delay decoding), datagram_limits, zero_rtt_parameters, \
+               Limits::load_peer (idle timeout) and s2n's re-encoding against the RFC meaning. Non-trivial: block has >= 3 known \
+               parameters and a value within 1 of a bound, or contains a duplicate / server-only-from-client / wrong-length \
+               value; applied: >= 3 parameters, pairwise distinct stream-data limits and local != peer idle timeout. \
+               Distinct = distinct generated cases.",
+        assumptions: &[
+            "the RFC table in c14_params.rs (one row per parameter, each citing its sentence) and the reference varint/TLV parser are the trusted base",
+            "latitude (either outcome accepted): duplicates of unknown ids; max_udp_payload_size above 65527; original_destination_connection_id shorter than 8 bytes; preferred_address with both address families all-zero",
+            "duplicates of known ids are required to be refused (RFC 9000 §7.4 says SHOULD; the property statement says refused)",
+            "connection-id authentication against the handshake, the wire error code and the running connection's behaviour are not reachable at component level (end-to-end part of C14)",
+            "s2n's private extension ids 0xdc0000..0xdc00ff are never generated",
+        ],
         subs: subs(),
         shards: 0,
     }
